@@ -26,7 +26,7 @@ def allowedGlobalWrites : List String :=
 /-- REGENERATED OBLIGATION: executions share no package-level mutable state. -/
 theorem no_hidden_global_state : Gen.globalWrites.all (fun w => allowedGlobalWrites.contains w) = true := by decide
 
-variable [FOps]
+variable [FOps] [Prov]
 
 /-- A run is a function of the program and the initial state only: two runs of the same tree
 from equal fresh states give the same value, error status, probe trace and bindings (the model
